@@ -4,7 +4,7 @@ import props_PN
 from propdefs import bfs
 
 N_DOCS = 24
-GOOD_URLS = [1, 2, 3, 4, 16, 13]
+GOOD_URLS = [1, 2, 3, 4, 16, 13, 17]
 ODD_URLS = [5, 6, 7, 8, 9, 10, 11, 12, 13, 14, 15]
 
 GEN = dict(runs=dict(quick=[bfs("MC_Calls", "Calls_design")], thorough=[bfs("MC_Calls", "Calls_design")]))
